@@ -8,6 +8,7 @@ import (
 	"io"
 	"os"
 	"path/filepath"
+	"reflect"
 	"sort"
 	"strings"
 	"time"
@@ -17,6 +18,7 @@ import (
 	"github.com/wrgl/wrgl/pkg/ingest"
 	"github.com/wrgl/wrgl/pkg/merge"
 	"github.com/wrgl/wrgl/pkg/objects"
+	"github.com/wrgl/wrgl/pkg/progress"
 	"github.com/wrgl/wrgl/pkg/sorter"
 	"github.com/wrgl/wrgl/pkg/verifrt"
 
@@ -677,6 +679,81 @@ func c16Race(c *mc.Ctx) {
 	}
 }
 
+// c16Progress: the progress trackers that DiffTables and Merger.Start hand to their callers, driven the way
+// the commands drive them (collectDiffObjects, writeRowChanges, collectMergeConflicts): a loop selecting over
+// {progress events, work channel} that is left when the work channel is closed, then Stop. The ticker is an
+// environment thread that ticks at moments the explorer chooses (1..2 ticks); a producer updates the tracker
+// and feeds 0..2 work items. Every schedule must let the caller return from Stop.
+func c16Progress(c *mc.Ctx) {
+	needRewrite("sched:pkg/progress/progress.go")
+	joined := c.Choose(2) == 1
+	ticks := 1 + c.Choose(2)
+	items := c.Choose(3)
+	c.Shard()
+	desc := fmt.Sprintf("progress tracker (joined=%v), %d tick(s), producer feeding %d work item(s), consumer leaves its loop when the work channel closes and calls Stop", joined, ticks, items)
+	c.Logf("%s", desc)
+	setRoot(desc)
+	verifrt.TickerTicks = ticks
+	defer func() { verifrt.TickerTicks = 2 }()
+	stopped := false
+	var events []progress.Event
+	s := schedule(c, func() {
+		st := progress.NewSingleTracker(time.Millisecond, int64(items))
+		var tr progress.Tracker = st
+		if joined {
+			tr = progress.JoinTrackers(st, progress.NewSingleTracker(time.Millisecond, 5))
+		}
+		evCh := tr.Start()
+		work := make(chan int)
+		verifrt.Go(func() {
+			for i := 0; i < items; i++ {
+				st.Add(1)
+				verifrt.Send(work, i)
+			}
+			verifrt.Close(work)
+		})
+		for {
+			sel, v, ok := verifrt.ReflectSelect([]reflect.SelectCase{
+				{Dir: reflect.SelectRecv, Chan: reflect.ValueOf(evCh)},
+				{Dir: reflect.SelectRecv, Chan: reflect.ValueOf(work)},
+			})
+			if sel == 1 && !ok {
+				break
+			}
+			if sel == 0 && ok {
+				events = append(events, v.Interface().(progress.Event))
+			}
+		}
+		tr.Stop()
+		stopped = true
+	})
+	if schedFail(c, s, desc) {
+		return
+	}
+	if c16free {
+		return
+	}
+	if !stopped {
+		c.Fail("deadlock", "the consumer never returned from Stop; %s", desc)
+		return
+	}
+	wantTotal := int64(items)
+	if joined {
+		wantTotal += 5
+	}
+	for _, e := range events {
+		if e.Total != wantTotal || e.Progress < 0 || e.Progress > int64(items) {
+			c.Fail("result-differs", "progress event %+v outside what the producer did (total %d, at most %d done); %s", e, wantTotal, items, desc)
+			return
+		}
+	}
+	c.Outcome(fmt.Sprintf("stopped-events%d", len(events)))
+	c.Nontrivial(desc)
+	if c.WantSample() && len(events) > 0 {
+		c.Sample(map[string]any{"case": desc, "events": len(events), "scheduling_steps": s.Steps})
+	}
+}
+
 func init() {
 	sched := func(name string, body func(*mc.Ctx), q, t int) *mc.Harness {
 		return &mc.Harness{Name: name, Variant: "sched", Body: body, Procs: 1, DevBound: map[string]int{"quick": q, "thorough": t},
@@ -688,6 +765,7 @@ func init() {
 		Rule: "stateless schedule exploration (DFS over scheduler decisions with iterative preemption bounding) of the REAL pipeline code under a cooperative scheduler: every go statement, channel send / receive / range / close, reflect.Select, WaitGroup operation and Mutex lock AND unlock of inserter.go, sorter.go, diff.go, merger.go, row_collector.go is rewritten at build time into a scheduling point; channel contents live in the scheduler. " +
 			"Harnesses: ingest worker pool (2..3 blocks of 3 rows, 2..3 workers, block channel capacity 0/1/10, each object-store write failing in turn, once or from then on); sorter producer -> inserter with and without a spilled chunk, and with a spilled chunk that cannot be read back (truncated); differ + consumer (with failing store reads); merger (two differs, select loop, collector) + consumer for three merge shapes - five threads over unbuffered channels, explored with DELAY bounding (every departure from the deterministic default schedule counts) instead of preemption bounding; the same merger over a store whose k-th read fails once, or whose every read from the k-th on fails (k = 1..14). " +
 			"Every complete schedule within the preemption bound must end (no deadlock / livelock within the horizon), have no send on closed / double close, no happens-before data race on the inserter's shared fields (vector clocks), return the 1-worker sequential result, and report an injected store error to the caller. " +
+			"Progress trackers (pkg/progress, handed out by DiffTables and Merger.Start): tracker goroutine + ticker (an environment thread delivering 1..2 ticks at moments the explorer chooses) + producer + a consumer that selects over {events, work}, leaves when the work channel closes and calls Stop, single and joined trackers, preemption bound 2 (thorough 4): the consumer must return from Stop in every schedule. " +
 			"Progress bars (pkg/pbar, used by commit and merge): every sequence of up to 3 operations {Incr, IncrBy, SetCurrent(0..4), SetTotal(0..4)} on a bar created with total {-1,0,1,3}, ended by Done or Abort and Container.Wait, must return - a build-time hang check turns waiting for a bar that is still running into a reported hang instead of blocking. " +
 			"Cross-check (harness race-detector-free-running, NOT an enumeration of schedules): the same harness bodies, with 2..4 workers and up to 9 blocks, run without the scheduler in a binary compiled with the Go race detector, 6 (thorough 40) repetitions per configuration; any race report is a violation - this covers unsynchronised accesses the cooperative scheduler cannot see. " +
 			"states = distinct (harness, configuration) roots; transitions = scheduling steps; traces_validated_against_impl = complete schedules, all executed on the implementation",
@@ -704,6 +782,7 @@ func init() {
 			sched("differ", c16Diff, 2, 3),
 			sched("merger-delay-bounded", c16Merge, 3, 5),
 			sched("merger-store-faults", c16MergeFaults, 1, 3),
+			sched("progress-trackers", c16Progress, 2, 4),
 			{Name: "progress-bar-protocol", Variant: "sched", Body: c16Bars, Procs: 2,
 				Budget: map[string]time.Duration{"quick": 45 * time.Second, "thorough": 5 * time.Minute}},
 			{Name: "race-detector-free-running", Variant: "race", Body: c16Race, Procs: 4,
